@@ -43,7 +43,73 @@ let deep field n cols zs gs gam del ts h xs =
     (showlist (Stdlib.List.map (fun x -> Stark.peval o d x) pts))
     (showlist (Stdlib.List.map (fun x -> Stark.v_deep o g coin x (Stark.evals o tpolys x) (Stark.evals o hs x) cur nxt hz) pts))
 
+(* ---- the Lagrange-kernel DEEP term (Model/StarkLagrange.v) over Z/p or its quadratic extension:
+   "deeplag <field> <ext> <n> <v> z=<e> g=<hex> cc=<e> G <gammas e,..> T <main polys (base) ;..> A <aux polys (e) ;..> L <kernel poly e,..> X <xs (base)>"
+   an extension element is "a.b" (a + b*phi); main polynomials, g and the query points are base-field values *)
+let deeplag_gen o pe se emb n v zs gs ccs gam ts auxs lp xs =
+  let split c s = Stdlib.String.split_on_char c s in
+  let plist s = if s = "-" then [] else Stdlib.List.map pe (split ',' s) in
+  let show l = if l = [] then "-" else Stdlib.String.concat "," (Stdlib.List.map se l) in
+  let z = pe (strip_prefix "z=" zs) and g = emb (z_of_hex (strip_prefix "g=" gs)) and lcc = pe (strip_prefix "cc=" ccs) in
+  let mains = if ts = "-" then [] else Stdlib.List.map (fun p -> Stdlib.List.map emb (hexlist p)) (split ';' ts) in
+  let auxp = if auxs = "-" then [] else Stdlib.List.map plist (split ';' auxs) in
+  let tsall = mains @ auxp in
+  let lpp = plist lp and gamma = plist gam in
+  let pts = Stdlib.List.map emb (hexlist xs) in
+  let nn = nat_of_int (int_of_string n) and vv = nat_of_int (int_of_string v) in
+  let ip = StarkLagrange.interp_pts_c20 o false in
+  let zg = FieldOps.fmul o z g in
+  let cur = Stark.evals o tsall z and nxt = Stark.evals o tsall zg in
+  let d0 = Stark.deep_trace o nn g z gamma tsall cur nxt in
+  let xl = StarkLagrange.lag_pts o g z vv in
+  let lf = StarkLagrange.lag_frame o g vv lpp z in
+  let d = Stark.padd o (StarkLagrange.deep_lag o ip lcc lpp xl lf) d0 in
+  let rec int_of_nat = function Datatypes.O -> 0 | Datatypes.S k -> 1 + int_of_nat k in
+  Stdlib.Printf.sprintf "deg=%d lf=%s evals=%s vtrace=%s" (int_of_nat (Stark.degree_of o d)) (show lf)
+    (show (Stdlib.List.map (fun x -> Stark.peval o d x) pts))
+    (show (Stdlib.List.map (fun x -> StarkLagrange.v_trace_lag o ip g vv z x gamma lcc (Stark.evals o (tsall @ [lpp]) x) cur nxt lf) pts))
+
+let deeplag field ext n v zs gs ccs gam ts auxs lp xs =
+  match field, ext with
+  | _, "1" ->
+      let p = match field with "f64" -> ZpOps.coq_P64 | "f62" -> ZpOps.coq_P62 | "f128" -> ZpOps.coq_P128 | f -> failwith ("field " ^ f) in
+      deeplag_gen (ZpOps.zp_ops p) z_of_hex hex_of_z (fun x -> x) n v zs gs ccs gam ts auxs lp xs
+  | ("f64" | "f62"), "2" ->
+      let o = if field = "f64" then PolynomExt.quad64_ops else PolynomExt.quad62_ops in
+      let pe s = match Stdlib.String.split_on_char '.' s with [ a; b ] -> (z_of_hex a, z_of_hex b) | _ -> failwith ("bad extension element " ^ s) in
+      let se (a, b) = hex_of_z a ^ "." ^ hex_of_z b in
+      deeplag_gen o pe se (fun x -> (x, BinNums.Z0)) n v zs gs ccs gam ts auxs lp xs
+  | _ -> "driver-error:unsupported-field-extension"
+
+(* ---- shape predicates of the Lagrange model on a Lagrange member:
+   "lagshape <log_n> <mw> <aux total (kernel column included)> <rands> <blowup> <na> <naa> <e> M <main degs> A <aux degs>" *)
+let lagshape log_n mw aw rands blowup na naa e md ad =
+  match Stark.Shape.ctx_model (z mw) (z aw) (z rands) (z log_n) (z blowup) (z na) (z naa) false (Some (z e)) md ad with
+  | None -> "panic run=inadmissible"
+  | Some (((ce, cols), lde), ex) ->
+      let v = int_of_string log_n in
+      let n = 1 lsl v in
+      let o = ZpOps.zp_ops ZpOps.coq_P64 in
+      let one = z_of_int 1 in
+      let pts = StarkLagrange.lag_pts o (z_of_int 7) (z_of_int 12345) (nat_of_int v) in
+      let frame_len = Stdlib.List.length pts in
+      (* the guards of prove_lag / verify_lag: the Lagrange constraints exist (lag_new on log2 n coefficients), they are defined on a
+         frame of that many entries, syn_div_roots_in_place's assertion v + 1 < n *)
+      let ones k = Stdlib.List.init k (fun _ -> one) in
+      let lag_ok =
+        match EnforceLagrange.lag_new o (ones v) with
+        | None -> false
+        | Some t ->
+            (match StarkLagrange.lag_eval o { StarkLagrange.lc_t = t; lc_rr = ones v; lc_lb = one } (ones frame_len) (z_of_int 12345) with
+             | None -> false | Some _ -> true) in
+      let run = if lag_ok && frame_len < n && int_of_string aw >= 1 then "ok" else "panic" in
+      Stdlib.Printf.sprintf "ok ce=%s cols=%s lde=%s ex=%s lagidx=%d frame=%d run=%s" (d ce) (d cols) (d lde) (d ex) (int_of_string aw - 1) frame_len run
+
 let eval = function
+  | "lagshape" :: log_n :: mw :: aw :: rands :: blowup :: na :: naa :: e :: "M" :: rest ->
+      let md, ad = split_at_a [] rest in
+      lagshape log_n mw aw rands blowup na naa e (Stdlib.List.map degree md) (Stdlib.List.map degree ad)
+  | [ "deeplag"; field; ext; n; v; zs; gs; ccs; "G"; gam; "T"; ts; "A"; auxs; "L"; lp; "X"; xs ] -> deeplag field ext n v zs gs ccs gam ts auxs lp xs
   | [ "deep"; field; n; cols; zs; gs; "G"; gam; "D"; del; "T"; ts; "H"; h; "X"; xs ] -> deep field n cols zs gs gam del ts h xs
   | [ "opts"; q; b; g; _e; f; m ] ->
       if Stark.Shape.options_ok (z q) (z b) (z g) (z f) (z m) then
